@@ -400,6 +400,8 @@ class World:
                     stale, why = self.m_stale(n)
                     self.flag("C01", "staleness_decision",
                               f"target {n}: gwf says {got}, specification says {want} ({why})", reason=why, got=got)
+            if obs in ("submitted", "running", "failed", "cancelled"):
+                self.probe("backend_state_rows")
             if obs in ("success", "none"):
                 # C08 only demands the fall-back to a file-based decision here; which one is C01's business
                 if got not in ("shouldrun", "completed"):
@@ -435,6 +437,11 @@ class World:
         got_names = [a[0] for a in res.accepted]
         if any(v is None for v in pre_status.values()):
             return
+        self.probe("plan_checks")
+        if plan:
+            self.probe("plan_checks_nonempty")
+        if any(v in ("submitted", "running", "failed", "cancelled") for v in pre_status.values()):
+            self.probe("plan_checks_with_backend_states")
         if sorted(got_names) != sorted(plan):
             dup = sorted({n for n in got_names if got_names.count(n) > 1})
             extra = sorted(set(got_names) - set(plan))
